@@ -269,17 +269,20 @@ structure Cond where
     A text attribute equals a listed number when it is that number's text form. -/
 def valMatches (numeric : Bool) (a v : Val) : Bool :=
   if numeric then
-    match a.num?, v with
-    | some p, .int j => p = (j : Rat)
-    | some p, .real q => p = q
-    | some p, .text t => numOfText t = some p
-    | none, .text _ => a = v
-    | none, _ => false
+    match a, v with
+    | .int i, .int j => i == j
+    | .int i, .real q => (i : Rat) == q
+    | .real p, .int j => p == (j : Rat)
+    | .real p, .real q => p == q
+    | .int i, .text t => numOfText t == some (i : Rat)
+    | .real p, .text t => numOfText t == some p
+    | .text s, .text t => s == t          -- a text kept in a numeric attribute equals only itself
+    | .text _, _ => false
   else
     match v with
-    | .text _ => a = v
-    | .int j => a = .text (textOfInt j)
-    | .real q => a = .text (textOfReal q)
+    | .text _ => a == v
+    | .int j => a == .text (textOfInt j)
+    | .real q => a == .text (textOfReal q)
 
 /-- is the attribute declared numeric (rowID, INT and REAL attributes; an added column by its declaration) -/
 def isNumeric (extra : List ColDef) : Col → Bool
@@ -289,7 +292,9 @@ def isNumeric (extra : List ColDef) : Col → Bool
 
 /-- a condition holds when the attribute equals one of the listed values; a negated one when it equals none -/
 def Cond.holds (xd : List ColDef) (c : Cond) (i : Nat) (r : Row) : Bool :=
-  (c.vals.any (valMatches (isNumeric xd c.col) (cell c.col i r))) != c.neg
+  let a := cell c.col i r
+  let numeric := isNumeric xd c.col
+  (c.vals.any (fun v => valMatches numeric a v)) != c.neg
 
 /-- every keyword condition holds -/
 def sat (xd : List ColDef) (q : List Cond) (ri : Row × Nat) : Bool :=
